@@ -1,18 +1,49 @@
 import XrsVerif.Proofs.Polygonize
+import XrsVerif.Proofs.PolygonizeOrbit
 /-
-  C15 -- polygonize is lossless (work in progress header; see the theorem list below).
+  C15 -- polygonize is lossless.
+
+  Model (Model/Polygonize.lean): `calculateRegions` (W/S/SW/SE rules, `mergeRegions` lookup chain with its
+  allocated size, compaction to first-pixel ranks), the follower `step` on states (pixel, heading) with the
+  three turn rules (Right if the pixel ahead-right is in the region, else Straight if the pixel ahead is,
+  else Left), `followLoop`/`follow` (vertex recorded when the heading changes, visited flags), `scan`
+  (exterior / hole starts, hole attachment), `polygonizeNumpy` (nx = 1 workaround, transform).
+
+  Proved here, for every raster size, region array and start:
+  * `follow_invariant`        every state keeps the region on its left and a pixel outside the region (or
+                              outside the raster) on its right;
+  * `follow_axis_parallel`    every iteration moves the current vertex by one unit along the heading:
+                              vertices are pixel corners joined by axis-parallel unit steps;
+  * `follow_step_injective`   the step is injective on boundary-edge states;
+  * `follow_terminates`       started on a boundary edge the follower is back at its start within the fuel
+                              (injective self-map of a finite set, at most 4·nx·ny states);
+  * `hole_start_on_boundary`, `exterior_start_on_boundary`  the states `_scan` starts from are boundary edges
+                              (for exteriors: given that the pixel is the first of its region in scan order);
+  * `ring_closed_rectilinear` every returned ring starts and ends at the start vertex and consecutive
+                              vertices share a coordinate;
+  * `transform_every_vertex`  the affine transform is applied to every vertex of every ring, nothing else;
+  * `lossless_partial`        the above assembled for one boundary.
+
+  NOT proved (the gap): that the rings, rasterised with the even-odd rule at the pixel centres, give back
+  exactly the regions (a discrete Jordan-curve argument), that the shoelace area equals the pixel count
+  (discrete Green), the orientation claim, that `calculateRegions` yields the connected components with
+  first-pixel ranks (union-find invariant of the merge lookup), and that `scan` attaches every hole to the
+  right exterior.  The complete statement is `Polygonize.losslessB` (a decidable check of a result against
+  the raster, with connectivity expressed through the C16 labelling whose correctness Props/C16 proves);
+  below it is evaluated by the kernel on concrete rasters (hole, diagonal pinch, mask, single column) and
+  the correspondence run checks it -- through an independent Python oracle -- on the real code for every
+  raster up to 12 pixels over {0,1}, 10 pixels over three symbols, and random larger ones.
 -/
 set_option linter.unusedVariables false
 namespace XrsVerif.C15
 open XrsVerif XrsVerif.Polygonize
 
-/-- `follow_invariant`: every state of the follower keeps the region on its left (its own pixel) and a
-    pixel that is not in the region -- or the outside of the raster -- on its right -/
+/-- every state of the follower keeps the region on its left (its own pixel) and a pixel that is not in
+    the region -- or the outside of the raster -- on its right -/
 theorem follow_invariant (R : Int → Int → Bool) (s : FSt) (h : Valid R s) : Valid R (step R s) :=
   step_valid R s h
 
-/-- every iteration moves the current vertex by exactly one unit along the heading: vertices are cell
-    corners (integer points) joined by axis-parallel unit steps -/
+/-- every iteration moves the current vertex by exactly one unit along the heading -/
 theorem follow_axis_parallel (R : Int → Int → Bool) (s : FSt) :
     (step R s).corner = (s.corner.1 + s.d.dx, s.corner.2 + s.d.dy) :=
   corner_step R s
@@ -22,14 +53,100 @@ theorem follow_step_injective (R : Int → Int → Bool) (s t : FSt) (hs : Valid
     (h : step R s = step R t) : s = t :=
   step_injective R s t hs ht h
 
+/-- started on a boundary edge, `follow` returns (the `while True` loop of `_follow` terminates) -/
+theorem follow_terminates (nx ny : Nat) (regs : Nat → Nat) (ij : Nat) (hole : Bool)
+    (hstart : Valid (inRegion nx ny regs (regs ij))
+      ⟨(ij % nx : Nat), (ij / nx : Nat), if hole then .W else .E⟩) :
+    (follow nx ny regs ij hole).isSome = true :=
+  follow_isSome nx ny regs ij hole hstart
+
+/-- the state a hole is started from (`_scan`: `ij >= nx`, `regions[ij] != regions[ij-nx]`) is a
+    boundary edge of the region of pixel `ij - nx` -/
+theorem hole_start_on_boundary (nx ny : Nat) (regs : Nat → Nat) (ij : Nat) (hnx : 0 < nx) (h1 : nx ≤ ij)
+    (h2 : ij < nx * ny) (hne : regs ij ≠ regs (ij - nx)) :
+    Valid (inRegion nx ny regs (regs (ij - nx))) ⟨((ij - nx) % nx : Nat), ((ij - nx) / nx : Nat), .W⟩ :=
+  hole_start_valid nx ny regs ij hnx h1 h2 hne
+
+/-- the state an exterior is started from is a boundary edge when the pixel below `ij` is not in the
+    same region (true for the first pixel of a region in scan order) -/
+theorem exterior_start_on_boundary (nx ny : Nat) (regs : Nat → Nat) (ij : Nat) (hnx : 0 < nx)
+    (h2 : ij < nx * ny) (hfirst : nx ≤ ij → regs (ij - nx) ≠ regs ij) :
+    Valid (inRegion nx ny regs (regs ij)) ⟨(ij % nx : Nat), (ij / nx : Nat), .E⟩ :=
+  exterior_start_valid nx ny regs ij hnx h2 hfirst
+
+/-- every ring returned by `follow` is closed (first = last = the start vertex), has at least two
+    points, and consecutive points are joined by axis-parallel segments -/
+theorem ring_closed_rectilinear (nx ny : Nat) (regs : Nat → Nat) (ij : Nat) (hole : Bool) (tr : Trace)
+    (h : follow nx ny regs ij hole = some tr) :
+    Rectilinear tr.pts ∧ tr.pts.head? = tr.pts.getLast? ∧
+      tr.pts.head? = some (FSt.corner ⟨(ij % nx : Nat), (ij / nx : Nat), if hole then .W else .E⟩) ∧
+      2 ≤ tr.pts.length := by
+  obtain ⟨h1, h2, h3, h4⟩ := follow_ring nx ny regs ij hole tr h
+  exact ⟨h1, by rw [h2, h3], h2, h4⟩
+
 /-- a supplied affine transform is applied to every vertex of every ring (and to nothing else) -/
 theorem transform_every_vertex {V : Type} (nx ny : Nat) (conn8 : Bool) (close : V → V → Bool)
     (values : Nat → V) (mask : Nat → Bool) (t : List Rat) :
     (polygonizeNumpy nx ny conn8 close values mask (some t)).polys =
       (polygonizeNumpy nx ny conn8 close values mask none).polys.map
-        (fun rings => rings.map (fun ring => ring.map (affineR t))) ∧
+        (fun rings => rings.map (fun ring => ring.map (fun p => affineR t p))) ∧
     (polygonizeNumpy nx ny conn8 close values mask (some t)).column =
-      (polygonizeNumpy nx ny conn8 close values mask none).column := by
+      (polygonizeNumpy nx ny conn8 close values mask none).column ∧
+    (polygonizeNumpy nx ny conn8 close values mask (some t)).ok =
+      (polygonizeNumpy nx ny conn8 close values mask none).ok := by
   simp [polygonizeNumpy, List.map_map, Function.comp_def, affine_eq]
+
+/-- What is proved of losslessness, for one boundary: started on a boundary edge of a region, the
+    follower terminates and returns a closed rectilinear ring through the start vertex, keeping the
+    region on its left and the complement on its right at every step (`follow_invariant`), each step
+    being one unit along an axis (`follow_axis_parallel`), no boundary edge being visited twice before
+    the return (`follow_step_injective`).
+    The full statement -- `losslessB … = true` for the output of `scan` on every raster -- is not proved;
+    see the header. -/
+theorem lossless_partial (nx ny : Nat) (regs : Nat → Nat) (ij : Nat) (hole : Bool)
+    (hstart : Valid (inRegion nx ny regs (regs ij))
+      ⟨(ij % nx : Nat), (ij / nx : Nat), if hole then .W else .E⟩) :
+    ∃ tr, follow nx ny regs ij hole = some tr ∧ Rectilinear tr.pts ∧ tr.pts.head? = tr.pts.getLast? ∧
+      tr.pts.head? = some (FSt.corner ⟨(ij % nx : Nat), (ij / nx : Nat), if hole then .W else .E⟩) ∧
+      2 ≤ tr.pts.length := by
+  have h := follow_terminates nx ny regs ij hole hstart
+  cases hf : follow nx ny regs ij hole with
+  | none => rw [hf] at h; cases h
+  | some tr => exact ⟨tr, rfl, ring_closed_rectilinear nx ny regs ij hole tr hf⟩
+
+/-! ### non-vacuity, and the full statement evaluated on concrete rasters -/
+
+def eqI (a b : Int) : Bool := a == b
+
+/-- `scan` on a raster followed by the full losslessness check -/
+def holds (nx ny : Nat) (c8 : Bool) (values : Nat → Int) (mask : Nat → Bool) : Bool :=
+  let sc := scan nx ny c8 eqI values mask
+  sc.ok && losslessB nx ny c8 eqI values mask sc.column.reverse sc.polys
+
+/-- 3×3 ring of 1s around a 0: one polygon with a hole, one square -/
+def ringV : Nat → Int := fun ij => if ij = 4 then 0 else 1
+/-- 2×2 checkerboard: a diagonal pinch (one bow-tie polygon per value with connectivity 8) -/
+def pinchV : Nat → Int := fun ij => if ij = 0 ∨ ij = 3 then 1 else 0
+
+example : (scan 3 3 false eqI ringV (fun _ => true)).polys =
+    [[[(0, 0), (3, 0), (3, 3), (0, 3), (0, 0)], [(2, 1), (1, 1), (1, 2), (2, 2), (2, 1)]],
+     [[(1, 1), (2, 1), (2, 2), (1, 2), (1, 1)]]] := by decide +kernel
+example : holds 3 3 false ringV (fun _ => true) = true := by decide +kernel
+example : holds 3 3 true ringV (fun _ => true) = true := by decide +kernel
+example : holds 2 2 true pinchV (fun _ => true) = true := by decide +kernel
+example : holds 2 2 false pinchV (fun _ => true) = true := by decide +kernel
+/-- with a mask -/
+example : holds 3 2 false (fun ij => (ij % 2 : Nat)) (fun ij => decide (ij ≠ 2)) = true := by decide +kernel
+/-- a single column goes through the `nx = 1` workaround -/
+example : (polygonizeNumpy 1 3 false eqI (fun ij => if ij = 2 then 2 else 1) (fun _ => true) none).polys =
+    [[[(0, 0), (1, 0), (1, 2), (0, 2), (0, 0)]], [[(0, 2), (1, 2), (1, 3), (0, 3), (0, 2)]]] := by
+  decide +kernel
+/-- the check rejects a wrong result (the hole dropped) -/
+example : losslessB 3 3 false eqI ringV (fun _ => true) [1, 0]
+    [[[(0, 0), (3, 0), (3, 3), (0, 3), (0, 0)]], [[(1, 1), (2, 1), (2, 2), (1, 2), (1, 1)]]] = false := by
+  decide +kernel
+/-- the start states of `lossless_partial` exist: exterior of the ring region, and its hole -/
+example : Valid (inRegion 3 3 (fun ij => if ij = 4 then 2 else 1) 1) ⟨0, 0, .E⟩ := by decide
+example : Valid (inRegion 3 3 (fun ij => if ij = 4 then 2 else 1) 1) ⟨1, 0, .W⟩ := by decide
 
 end XrsVerif.C15
